@@ -114,10 +114,14 @@ def decide(impl_pc, impl_outcome, ref_cases, verdict, timeout_ms=20000, on_sat=N
         conj = list(rpc) + ([] if d is True else [d])
         disj.append(z3.And(*conj) if len(conj) > 1 else (conj[0] if conj else z3.BoolVal(True))); which.append((rpc, ro))
     if not disj: return
-    sol = z3.Solver(); sol.set('timeout', timeout_ms)
-    for c in impl_pc: sol.add(c)
-    sol.add(z3.Or(*disj) if len(disj) > 1 else disj[0])
-    t0 = time.time(); r = sol.check(); verdict.time += time.time() - t0; verdict.queries += 1
+    t0 = time.time()
+    for attempt in (1, 6):          # an unknown answer is retried once with a six-fold time limit
+        sol = z3.Solver(); sol.set('timeout', timeout_ms * attempt)
+        for c in impl_pc: sol.add(c)
+        sol.add(z3.Or(*disj) if len(disj) > 1 else disj[0])
+        r = sol.check(); verdict.queries += 1
+        if r != z3.unknown: break
+    verdict.time += time.time() - t0
     if r == z3.sat:
         verdict.sat += 1
         if verdict.status != 'violated':
